@@ -93,3 +93,31 @@ Theorem C05_replace_keeps_rows_in_place_and_appends_unmatched : forall strict w 
                      (combine (seq 0 (length news)) news)).
 Proof. exact replace_rows_spec. Qed.
 Print Assumptions C05_replace_keeps_rows_in_place_and_appends_unmatched.
+
+(* ---- multi-table DELETE / UPDATE over two joined tables (Proofs/DmlMulti.v) ------------------------------- *)
+Require Import Csvq.Proofs.DmlMulti.
+(* the joined rows that count are exactly the pairs on which ON and WHERE are TRUE *)
+Theorem C05_multi_table_kept_pairs : forall on wh ps cs hs, join_hits on wh ps cs = Ok hs ->
+  forall i j, In (i, j) hs <-> exists p c, nth_error ps i = Some p /\ nth_error cs j = Some c /\ takes_part on wh p c.
+Proof. exact join_hits_spec. Qed.
+
+(* DELETE p[, c] FROM p JOIN c ..: each target table loses exactly the rows that take part in a kept joined row
+   (the others stay, in order; the count is their number); a table that is not a target is untouched *)
+Theorem C05_multi_table_delete : forall tp tc on wh ps cs ps' np cs' nc,
+  delete_join tp tc on wh ps cs = Ok ((ps', np), (cs', nc)) ->
+  (if tp then exists idx, (forall i, In i idx <-> p_takes_part on wh ps cs i) /\ NoDup idx /\
+                          ps' = remove_idx idx ps /\ np = Z.of_nat (length idx)
+   else ps' = ps /\ np = 0%Z) /\
+  (if tc then exists idx, (forall j, In j idx <-> c_takes_part on wh ps cs j) /\ NoDup idx /\
+                          cs' = remove_idx idx cs /\ nc = Z.of_nat (length idx)
+   else cs' = cs /\ nc = 0%Z).
+Proof. exact delete_join_spec. Qed.
+Print Assumptions C05_multi_table_delete.
+
+(* UPDATE p SET .. FROM p JOIN c ..: number and order of p's rows are kept; a row that takes part in no kept
+   joined row is unchanged; c is never written *)
+Theorem C05_multi_table_update_frame : forall sets on wh ps cs ps' n,
+  update_join sets on wh ps cs = Ok (ps', n) ->
+  length ps' = length ps /\ (forall i, ~ p_takes_part on wh ps cs i -> nth i ps' [] = nth i ps []).
+Proof. exact update_join_frame. Qed.
+Print Assumptions C05_multi_table_update_frame.
